@@ -32,7 +32,7 @@ GROUPINGS = ["none", "page_by1", "page_by2", "page_by_newpage_column", "page_by_
 
 TABLE_DIMS = {
     "n": [3, 0, 1, 2, 5, 12],
-    "cols": [["s", "i"], ["s"], ["s", "i", "f"], ["p", "m", "z"], ["s", "i", "f", "s", "i"], ["i", "f"], ["s", "ni", "nf"], ["u", "i", "u"], []],
+    "cols": [["s", "i"], ["s"], ["s", "i", "f"], ["p", "m", "z"], ["s", "i", "f", "s", "i"], ["i", "f"], ["s", "ni", "nf"], ["u", "i", "u"], ["s", "b", "fe"], []],
     "title": [1, 0, 2],
     "subline": [False, True],
     "header": ["default", "explicit", "two", "none", "off", "explicit_long", "explicit_short"],
@@ -58,6 +58,8 @@ TABLE_DIMS = {
     "text_font": [None, 4, "col"],
     "text_convert": [None, False],
     "heights": [None, "wrap"],
+    "text_color": [None, "red", "col"],
+    "title_color": [None, "blue"],
 }
 PAGED_ANCHOR = {"n": 5, "grouping": "page_by1", "nrow": 5, "header": "explicit", "footnote": "table", "source": "para", "title": 2, "subline": True,
                 "page_header": "default", "page_footer": "text"}
@@ -166,6 +168,10 @@ def table_spec(c):
         body["text_font"] = shape_value("col", [4, 1, 9], n, ncol_all) if c["text_font"] == "col" else c["text_font"]
     if c["text_convert"] is False:
         body["text_convert"] = False
+    if c.get("text_color"):
+        body["text_color"] = shape_value("col", ["red", "gold", "navy"], n, ncol_all) if c["text_color"] == "col" else c["text_color"]
+    if c.get("title_color") and c["title"]:
+        spec["title_attrs"] = {"text_color": c["title_color"]}
     if body:
         spec["body"] = body
     if c["heights"] == "wrap" and n:
@@ -241,7 +247,9 @@ def classify(c, anchor, exc):
             return "half-point-font-size-rejected"
         if c.get("cell_justification") == "j" and t == "ValueError" and "Row: Invalid justification" in msg:
             return "cell-justification-j-accepted-then-refused"
-        if not c.get("cols") and t == "ZeroDivisionError":
+        if not c.get("cols") and (t == "ZeroDivisionError" or (t == "ValidationError" and "cols must be positive" in msg)):
+            # no data column is left to render (ZeroDivisionError in the width computation; with zero rows the
+            # empty-page fallback fails on a 0-column dimension instead)
             return "no-column-left-after-group-column-removal"
         if c.get("header") == "explicit_long" and t == "IndexError":
             return "header-with-more-texts-than-widths-indexerror"
